@@ -43,13 +43,13 @@ def debit (b : Bank) (a : Addr) : Coins → Bank
   | [] => b
   | (d, n) :: r => debit (Bank.setBal b a d (Bank.balOf b a d - n)) a r
 
-/-- what a claim of `c` does to the balances: plain — escrow → recipient; incoming — minted to
-the recipient; outgoing — burnt from escrow -/
+/-- what a claim of `c` does to the bank: plain — escrow → recipient; incoming — minted into
+the escrow and passed on to the recipient; outgoing — burnt from escrow -/
 def payClaim (b : Bank) (c : Contract) : Bank :=
   if c.transfer then
     match c.direction with
-    | .incoming => credit (debit (credit b escrow c.amount) escrow c.amount) c.to c.amount
-    | .outgoing => debit b escrow c.amount
+    | .incoming => credit (debit (mintCoins b escrow c.amount) escrow c.amount) c.to c.amount
+    | .outgoing => subSupply (debit b escrow c.amount) c.amount
     | .none => b
   else credit (debit b escrow c.amount) c.to c.amount
 
